@@ -983,7 +983,7 @@ func cName(name string, pkgPrefix string) string {
 			underscore = true
 		}
 	}
-	if underscore {
+	if underscore && (len(s) > len(pkgPrefix)) {
 		s = s[:len(s)-1]
 	}
 	return string(s)
@@ -1030,11 +1030,20 @@ func (g *gen) addStatus(qid t.QID, msg string, public bool) error {
 	} else if msg[0] == '#' {
 		category = "error__"
 	}
+	name := cName(msg, "")
+	if name == "" {
+		return fmt.Errorf("bad status message %q: it has no letters or digits", msg)
+	}
 	z := status{
-		cName:       g.packagePrefix(qid) + category + cName(msg, ""),
+		cName:       g.packagePrefix(qid) + category + name,
 		msg:         msg,
 		fromThisPkg: qid[0] == 0,
 		public:      public,
+	}
+	for _, y := range g.statusList {
+		if y.cName == z.cName {
+			return fmt.Errorf("status messages %q and %q have the same C name %q", y.msg, z.msg, z.cName)
+		}
 	}
 	g.statusList = append(g.statusList, z)
 	g.statusMap[qid] = z
